@@ -275,7 +275,18 @@ Definition exec_trace (sc : scope) (st : state) (ps : pos) (tid : N) (tk : kind)
       if sl then [] else
       if m <=? 0 then clear_list_tr sc st ps tid tpth its
       else extend_core_tr sc st ps (repeat_list (Z.to_nat (m - 1)) (map (fun kv => rv_of_item (snd kv)) its))
-  | LAdd _ | LMul _ | LCopy | DCopy | Clone _ | Seal _ | SetAW _ => []   (* new values / flags: nothing observable *)
+  | LAdd rvs =>
+      (* the copy is a new root without observers; its extension is traced like any other *)
+      if treats_as_sealed sc default_flags then [] else
+      let '(c, st1) := new_list_from q st its in
+      extend_core_tr sc (add_root st1 c) (length (roots st1), []) rvs
+  | LMul m =>
+      (* the result list is extended m times; it is new, has no parent and no callback, so only its writes are traced *)
+      if (m >=? 1) && treats_as_sealed sc default_flags then [] else
+      let '(c, st1) := new_list_from q st [] in
+      fst (fst (fst (extend_tr sc (add_root st1 c) (length (roots st1), [])
+                               (repeat_list (Z.to_nat m) (map (fun kv => rv_of_item (snd kv)) its)))))
+  | LCopy | DCopy | Clone _ | Seal _ | SetAW _ => []   (* new values / flags: nothing observable *)
   | DSet _ k rv => if sl then [] else if negb aw then [] else write1_tr (dprim q) sc st ps k rv
   | DDel _ k =>
       if sl then [] else if negb aw then [] else
@@ -373,8 +384,12 @@ Fixpoint q_pure (t : list (N * bool)) (n : node) : bool * list (N * bool) :=
           (v, (i, v) :: t')
       end
   end.
-(* sym_missing(flatten=False) *)
-Fixpoint q_miss (t : list (N * mv)) (n : node) : mv * list (N * mv) :=
+(* sym_missing(flatten=False) / sym_nondefault(flatten=False), one scheme: [lp] is what a non-symbolic item contributes,
+   [rc] whether the node asks its symbolic children (each for ITS memoised value) or lists them by reference *)
+Section QGen.
+Variable lp : kind -> key -> leaf -> list (key * mv).
+Variable rc : kind -> bool.
+Fixpoint q_gen (t : list (N * mv)) (n : node) : mv * list (N * mv) :=
   match n with
   | Leaf _ => (MSub [], t)
   | Node i k _ _ _ its =>
@@ -387,52 +402,28 @@ Fixpoint q_miss (t : list (N * mv)) (n : node) : mv * list (N * mv) :=
                | [] => ([], t)
                | (ky, c) :: r =>
                    match c with
-                   | Leaf lf =>
-                       let '(l', t1) := go r t in
-                       ((match k, lf with KObj _, LMissing => [(ky, MLeaf LNone)] | _, _ => [] end) ++ l', t1)
+                   | Leaf lf => let '(l', t1) := go r t in (lp k ky lf ++ l', t1)
                    | Node _ _ _ _ _ _ =>
-                       let '(v, t1) := q_miss t c in
-                       let '(l', t2) := go r t1 in
-                       ((if mv_nonempty v then [(ky, v)] else []) ++ l', t2)
+                       if rc k then
+                         let '(v, t1) := q_gen t c in
+                         let '(l', t2) := go r t1 in
+                         ((if mv_nonempty v then [(ky, v)] else []) ++ l', t2)
+                       else let '(l', t1) := go r t in ((ky, MRef) :: l', t1)
                    end
                end) its t in
           (MSub l, (i, MSub l) :: t')
       end
   end.
-(* sym_nondefault(flatten=False): a Dict / List lists every leaf and asks every symbolic child; an object compares
-   each field with its default (None) and reports the ones that differ by value (no recursion) *)
-Fixpoint q_nond (t : list (N * mv)) (n : node) : mv * list (N * mv) :=
-  match n with
-  | Leaf _ => (MSub [], t)
-  | Node i k _ _ _ its =>
-      match lookup i t with
-      | Some v => (v, t)
-      | None =>
-          let '(l, t') :=
-            (fix go (l : list (key * node)) (t : list (N * mv)) : list (key * mv) * list (N * mv) :=
-               match l with
-               | [] => ([], t)
-               | (ky, c) :: r =>
-                   match c with
-                   | Leaf lf =>
-                       let '(l', t1) := go r t in
-                       ((match k with
-                         | KObj _ => if is_none_leaf lf then [] else [(ky, MLeaf lf)]
-                         | _ => [(ky, MLeaf lf)]
-                         end) ++ l', t1)
-                   | Node _ _ _ _ _ _ =>
-                       match k with
-                       | KObj _ => let '(l', t1) := go r t in ((ky, MRef) :: l', t1)
-                       | _ =>
-                           let '(v, t1) := q_nond t c in
-                           let '(l', t2) := go r t1 in
-                           ((if mv_nonempty v then [(ky, v)] else []) ++ l', t2)
-                       end
-                   end
-               end) its t in
-          (MSub l, (i, MSub l) :: t')
-      end
-  end.
+End QGen.
+(* sym_missing: only an object field can be MISSING_VALUE (its default, None, is what is missing); every symbolic child is asked *)
+Definition miss_leaf (k : kind) (ky : key) (lf : leaf) : list (key * mv) :=
+  match k, lf with KObj _, LMissing => [(ky, MLeaf LNone)] | _, _ => [] end.
+Definition q_miss := q_gen miss_leaf (fun _ => true).
+(* sym_nondefault: a Dict / List lists every leaf and asks every symbolic child; an object compares each field with its default
+   (None) and reports the ones that differ by value (no recursion) *)
+Definition nond_leaf (k : kind) (ky : key) (lf : leaf) : list (key * mv) :=
+  match k with KObj _ => if is_none_leaf lf then [] else [(ky, MLeaf lf)] | _ => [(ky, MLeaf lf)] end.
+Definition q_nond := q_gen nond_leaf (fun k => match k with KObj _ => false | _ => true end).
 (* what a computation from scratch gives *)
 Definition fresh_pure (n : node) : bool := fst (q_pure [] n).
 Definition fresh_miss (n : node) : mv := fst (q_miss [] n).
